@@ -373,6 +373,7 @@ let run_map_case (idx : int) (toks : string list) =
       | "d" | "D" -> let r = num t in let s = num t in MDefault (n_of_int r, n_of_int s)   (* get_or_set_default / _mut *)
       | "r" -> let kt = num t in let k = num t in MRead (n_of_int kt, n_of_int k)
       | "w" -> let kt = num t in let k = num t in let v = num t in MInsert (n_of_int kt, n_of_int k, z_of_int v)
+      | "m" -> let kt = num t in let k = num t in let v = num t in MInsert (n_of_int kt, n_of_int k, z_of_int v)   (* in-place route of the writer (get_mut): the same abstract operation *)
       | "x" -> let kt = num t in let k = num t in MRemove (n_of_int kt, n_of_int k)
       | "i" -> let kt = num t in let k = num t in let v = num t in MDirect (n_of_int kt, n_of_int k, z_of_int v)
       | "t" -> let sl = num t in let kt = num t in let k = num t in MStamp (n_of_int sl, n_of_int kt, n_of_int k)
@@ -475,7 +476,11 @@ let run_fs_case (idx : int) (toks : string list) =
        | Some g0 ->
          let w2 = fs_content 7 1 in
          let g1 = write_bytes g0 w2 now in
-         Printf.printf "w2 %s content=%s\n" tag (bb (match g1 with PFile (c, _) -> list_eq c w2 | _ -> false))) in
+         Printf.printf "w2 %s content=%s\n" tag (bb (match g1 with PFile (c, _) -> list_eq c w2 | _ -> false)));
+      (* the path is removed while the writer is still open: both routes see the absence *)
+      (match open_write f1 now with
+       | None -> Printf.printf "w3 %s err\n" tag
+       | Some _ -> Printf.printf "w3 %s eq=%s\n" tag (bb (eq (stamp_w Absent) (stamp_p Absent)))) in
   (* Exists *)
   let r0 = open_read s1 in
   Printf.printf "r E eq=%s rew=%s\n" (bb (ex_stamp s1 = ex_stamp_reader r0)) (rew s1 r0);
